@@ -88,6 +88,24 @@ class SourceIndex:
                     return q
         return None
 
+    def class_constant(self, cls, name):
+        """the value a class attribute has by the class bodies alone (first class in the MRO whose body assigns a constant
+        to it); (False, None) if there is none or it is not a constant"""
+        for c in self.mro(cls):
+            if c not in self.classes:
+                continue
+            for n in self.classes[c][1].body:
+                tgt, val = None, None
+                if isinstance(n, ast.Assign) and len(n.targets) == 1 and isinstance(n.targets[0], ast.Name):
+                    tgt, val = n.targets[0].id, n.value
+                elif isinstance(n, ast.AnnAssign) and isinstance(n.target, ast.Name):
+                    tgt, val = n.target.id, n.value
+                if tgt == name:
+                    if isinstance(val, ast.Constant):
+                        return True, val.value
+                    return False, None
+        return False, None
+
     def is_subclass(self, cls, base):
         return base in self.mro(cls)
 
